@@ -2,6 +2,8 @@ package main
 
 import (
 	"fmt"
+	"go/constant"
+	"go/token"
 	"go/types"
 	"sort"
 	"strings"
@@ -45,18 +47,13 @@ func checkAccessors(w *World, c *Check, rule string, methods []string) {
 				c.bad(rule, key, w.FuncPos(m), "no return found (undecided)")
 				continue
 			}
+			sum := symReturns(pr, m, 0, map[*ssa.Function]bool{})
 			if want, isField := accessorField[mn]; isField {
 				bad := ""
-				for _, r := range rets {
-					for _, leaf := range phiLeaves(r) {
-						fp, ok := pr.fieldOf(leaf)
-						if !ok || len(fp.Names) != 1 || fp.Names[0] != want || fp.Root != pr.canonicalRoot(m.Params[0]) {
-							bad = fmt.Sprintf("returns %s, not (only) its %s field", describeAccessorValue(pr, leaf), want)
-						}
+				for _, sv := range sum {
+					if sv.kind != "field" || sv.param != 0 || sv.name != want {
+						bad = fmt.Sprintf("returns %s, not (only) its %s field", sv.String(), want)
 					}
-				}
-				if len(rets) > 1 && bad == "" {
-					// several returns of the same field are fine; nothing else to say
 				}
 				if bad != "" {
 					c.bad(rule, key, w.FuncPos(m), fmt.Sprintf("%s.%s() %s: the comparison, de-duplication, flattening and list functions read this accessor as the plain field for every type; a value of this type is then treated differently from its siblings (not equal to itself, skipped, or replaced) while those functions are unchanged", tn, mn, bad))
@@ -67,11 +64,16 @@ func checkAccessors(w *World, c *Check, rule string, methods []string) {
 			}
 			// kind predicates
 			allConst := true
-			for _, r := range rets {
-				for _, leaf := range phiLeaves(r) {
-					if k, ok := leaf.(*ssa.Const); !ok || k.Value == nil {
-						allConst = false
-					}
+			for _, sv := range sum {
+				if sv.kind != "const" {
+					allConst = false
+				}
+			}
+			if !allConst {
+				// expressed through its sibling predicates (!t.IsCollection()): decided by constant evaluation
+				ip := newInterp(w)
+				if r, _, _ := ip.Call(m, []AV{avTop}, nil, Store{}, nil); r.K == kConst && len(ip.faults) == 0 {
+					allConst = true
 				}
 			}
 			if allConst {
@@ -244,6 +246,7 @@ func checkRegistryFresh(w *World, c *Check, rule string) {
 			}
 		}
 	}
+	var eff *effects
 	emptyValue := func(v ssa.Value) bool {
 		v = unwrap(v)
 		switch x := v.(type) {
@@ -262,7 +265,18 @@ func checkRegistryFresh(w *World, c *Check, rule string) {
 				}
 			}
 			cal := x.Common().StaticCallee()
-			return cal != nil && w.InPkg(cal)
+			if cal == nil || !w.InPkg(cal) {
+				return false
+			}
+			// … and what it hands back is memory of its own: not a package-level value (one shared "empty" list with
+			// spare capacity is appended into by every decoded object) and nothing reachable from elsewhere
+			if eff == nil {
+				eff = computeEffects(w)
+			}
+			if sm := eff.sum[cal]; sm == nil || sm.ret != 0 {
+				return false
+			}
+			return true
 		}
 		return false
 	}
@@ -315,10 +329,193 @@ func checkRegistryFresh(w *World, c *Check, rule string) {
 				if emptyValue(st.Val) {
 					c.ok(rule, key, w.InstrPos(st), "an empty value")
 				} else {
-					c.bad(rule, key, w.InstrPos(st), fmt.Sprintf("the value the type registry creates for a %s already has %s set (%s): decoders fill only the properties that are present, so a %s stored without %s reads back with it — a property nobody wrote", sn.Obj().Name(), fname, shortVal(st.Val), sn.Obj().Name(), strings.ToLower(fname[:1])+fname[1:]))
+					c.bad(rule, key, w.InstrPos(st), fmt.Sprintf("the value the type registry creates for a %s already has %s set, or set to memory that is not its own (%s): decoders fill only the properties that are present and append into what is there, so a %s stored without %s reads back with it — or shares it with every other decoded value", sn.Obj().Name(), fname, shortVal(st.Val), sn.Obj().Name(), strings.ToLower(fname[:1])+fname[1:]))
 				}
 			}
 		}
 	}
 	c.stat(rule+"_stores", n)
+}
+
+// retSym: what a function can return, in terms of its own parameters: a field of a parameter, a parameter itself, a
+// constant, or something else.
+type retSym struct {
+	kind  string // "field", "param", "const", "other"
+	param int
+	name  string
+	desc  string
+}
+
+func (v retSym) String() string {
+	switch v.kind {
+	case "field":
+		return "field " + v.name
+	case "param":
+		return fmt.Sprintf("its argument #%d", v.param)
+	case "const":
+		return "the constant " + v.desc
+	}
+	return v.desc
+}
+
+// symReturns summarises the values fn can return: through conversions, phis, locals, and calls of package functions
+// whose own summary is a field of / one of their parameters (id := p.GetID(); return id.GetLink() is "field ID").
+func symReturns(pr *prover, fn *ssa.Function, depth int, busy map[*ssa.Function]bool) []retSym {
+	if fn == nil || fn.Blocks == nil || depth > 4 || busy[fn] {
+		return []retSym{{kind: "other", desc: "an unresolved call"}}
+	}
+	busy[fn] = true
+	defer delete(busy, fn)
+	var out []retSym
+	var resolve func(v ssa.Value, d int) []retSym
+	resolve = func(v ssa.Value, d int) []retSym {
+		var res []retSym
+		for _, leaf := range phiLeaves(v) {
+			if d > 8 {
+				res = append(res, retSym{kind: "other", desc: shortVal(leaf)})
+				continue
+			}
+			if k, ok := leaf.(*ssa.Const); ok {
+				res = append(res, retSym{kind: "const", desc: k.String()})
+				continue
+			}
+			if fp, ok := pr.fieldOf(leaf); ok && len(fp.Names) == 1 {
+				if pi := paramIndexByRoot(pr, fn, fp.Root); pi >= 0 {
+					res = append(res, retSym{kind: "field", param: pi, name: fp.Names[0]})
+					continue
+				}
+			}
+			if pi := paramIndexByRoot(pr, fn, pr.canonicalRoot(leaf)); pi >= 0 {
+				if _, isParam := leaf.(*ssa.Parameter); isParam {
+					res = append(res, retSym{kind: "param", param: pi})
+					continue
+				}
+			}
+			// a local that was assigned once
+			if ld, ok := leaf.(*ssa.UnOp); ok && ld.Op == token.MUL {
+				if al, ok := ld.X.(*ssa.Alloc); ok {
+					sts := storesTo(al)
+					if len(sts) > 0 {
+						for _, st := range sts {
+							res = append(res, resolve(st.Val, d+1)...)
+						}
+						continue
+					}
+				}
+			}
+			if call, ok := leaf.(*ssa.Call); ok {
+				if cal := call.Common().StaticCallee(); cal != nil && cal.Pkg == fn.Pkg {
+					for _, sv := range symReturns(pr, cal, depth+1, busy) {
+						switch sv.kind {
+						case "const":
+							res = append(res, sv)
+						case "param":
+							if sv.param < len(call.Common().Args) {
+								res = append(res, resolve(call.Common().Args[sv.param], d+1)...)
+							} else {
+								res = append(res, retSym{kind: "other", desc: "the result of " + funcName(cal)})
+							}
+						case "field":
+							ok2 := false
+							if sv.param < len(call.Common().Args) {
+								for _, av := range resolve(call.Common().Args[sv.param], d+1) {
+									if av.kind == "param" {
+										res = append(res, retSym{kind: "field", param: av.param, name: sv.name})
+										ok2 = true
+									}
+								}
+							}
+							if !ok2 {
+								res = append(res, retSym{kind: "other", desc: "the result of " + funcName(cal)})
+							}
+						default:
+							res = append(res, retSym{kind: "other", desc: "the result of " + funcName(cal)})
+						}
+					}
+					continue
+				}
+			}
+			res = append(res, retSym{kind: "other", desc: describeAccessorValue(pr, leaf)})
+		}
+		return res
+	}
+	for _, b := range fn.Blocks {
+		if r, ok := b.Instrs[len(b.Instrs)-1].(*ssa.Return); ok && len(r.Results) == 1 {
+			out = append(out, resolve(r.Results[0], 0)...)
+		}
+	}
+	if len(out) == 0 {
+		out = append(out, retSym{kind: "other", desc: "nothing"})
+	}
+	return out
+}
+
+func paramIndexByRoot(pr *prover, fn *ssa.Function, root ssa.Value) int {
+	if root == nil {
+		return -1
+	}
+	for i, p := range fn.Params {
+		if pr.canonicalRoot(p) == root || ssa.Value(p) == root {
+			return i
+		}
+	}
+	return -1
+}
+
+// checkLoaderFilter: the item loader drops what NotEmpty refuses, so for every vocabulary struct NotEmpty must follow
+// the value's own kind-level test (see C07.family:not-empty, which runs the same interpretation per type NAME): with
+// those tests forced to true and GetType() forced to the struct's own name, NotEmpty(*T) is true.
+func checkLoaderFilter(w *World, c *Check, rule string) {
+	notEmptyFn := w.Func("NotEmpty")
+	if notEmptyFn == nil {
+		c.bad(rule, "anchor:NotEmpty", "-", "the loader's emptiness filter NotEmpty was not found")
+		return
+	}
+	kindTests := map[*ssa.Function]bool{}
+	for _, a := range allAnon(notEmptyFn) {
+		for _, call := range callsIn(a) {
+			g := call.Common().StaticCallee()
+			if g == nil || !w.InPkg(g) || g.Signature.Params().Len() != 1 || g.Signature.Results().Len() != 1 {
+				continue
+			}
+			if bt, ok := g.Signature.Results().At(0).Type().Underlying().(*types.Basic); !ok || bt.Kind() != types.Bool {
+				continue
+			}
+			if pt, ok := types.Unalias(g.Signature.Params().At(0).Type()).(*types.Pointer); ok {
+				if sn := namedOf(pt.Elem()); sn != nil && w.StructInfoOf(sn.Obj().Name()) != nil {
+					kindTests[g] = true
+				}
+			}
+		}
+	}
+	for _, k := range w.itemStructs() {
+		n := k.Obj().Name()
+		pk := types.NewPointer(k)
+		item := avIface(pk, avNonNilPtr(pk))
+		ip := newInterp(w)
+		forced := 0
+		ip.postCall = func(callee *ssa.Function, args []AV, res AV) AV {
+			if callee.Name() == "GetType" && len(args) == 1 {
+				return AV{K: kConst, C: constant.MakeString(n), T: w.Named("ActivityVocabularyType")}
+			}
+			if kindTests[callee] {
+				forced++
+				return avBool(true)
+			}
+			if callee.Name() == "IsLink" && n == "Link" && callee.Signature.Recv() != nil {
+				return avBool(true)
+			}
+			return res
+		}
+		res, _, _ := ip.Call(notEmptyFn, []AV{item}, nil, Store{}, nil)
+		b, isConst := res.isConstBool()
+		switch {
+		case ip.aborted != "":
+			c.bad(rule, n, w.FuncPos(notEmptyFn), "undecided: "+ip.aborted)
+		case isConst && b && forced > 0:
+			c.ok(rule, n, w.FuncPos(notEmptyFn), "kept or dropped by the value's own kind-level emptiness test")
+		default:
+			c.bad(rule, n, w.FuncPos(notEmptyFn), fmt.Sprintf("NotEmpty(*%s) evaluates to %s although the kind-level emptiness test of the value says non-empty (%d such tests reached): JSONLoadItem drops documents of this type on the word of another criterion (e.g. a collection without inline members): every property of such a document is lost on decode", n, res, forced))
+		}
+	}
 }
